@@ -17,3 +17,8 @@ func VerifFetchProfiles(sources, bases []string, diffBase, normalize bool, o *pl
 	s := &source{Sources: sources, Base: bases, DiffBase: diffBase, Normalize: normalize, Symbolize: "none"}
 	return fetchProfiles(s, setDefaults(o))
 }
+
+// VerifDeferDeleteTempFile and VerifCleanupTempFiles expose the registry of
+// temporary files to delete on exit.
+var VerifDeferDeleteTempFile = deferDeleteTempFile
+var VerifCleanupTempFiles = cleanupTempFiles
